@@ -82,6 +82,11 @@ class TapeRandom(object):
         out = self.tape.shuffle(lst)
         lst[:] = out
 
+    def random(self):
+        # a use of the process-global RNG where a seeded instance is documented: decided by the tape, so that
+        # oracles with a scripted instance RNG see that their script was not consulted
+        return self.tape.draw(1000) / 1000.0
+
 
 class VClock(object):
     """Virtual wall clock.  `now` is seconds since the Unix epoch (UTC); every reading advances it by `tick`
